@@ -11,6 +11,7 @@ import (
 	"sort"
 	"strings"
 	"testing"
+	"time"
 
 	"pgregory.net/rapid"
 
@@ -464,4 +465,83 @@ func TestC02(t *testing.T) {
 func FuzzC02(f *testing.F) {
 	ev := evid.New("C02", "FuzzC02")
 	f.Fuzz(rapid.MakeFuzz(c02prop(ev)))
+}
+
+// TestC02Interleave: the segmentation of one connection's bytes is interleaved with another
+// connection's bytes.  Transfer connection A delivers its 16-byte preamble in two segments;
+// between the two, transfer connection B delivers all of its preamble (and is served).  What A
+// and B get must be what they get when each preamble arrives whole: their own file.
+func TestC02Interleave(t *testing.T) {
+	ev := evid.New("C02", "TestC02Interleave")
+	defer ev.Flush()
+	rapid.Check(t, func(rt *rapid.T) {
+		k := rapid.IntRange(1, 15).Draw(rt, "cutA")
+		na := rapid.SampledFrom([]int{1, 100, 5000, 70000}).Draw(rt, "sizeA")
+		nb := rapid.SampledFrom([]int{0, 7, 3000}).Draw(rt, "sizeB")
+		bKind := rapid.SampledFrom([]string{"download", "download", "upload"}).Draw(rt, "kindB")
+		nWaves := rapid.IntRange(1, 3).Draw(rt, "waves")
+		a, b := bytes.Repeat([]byte("A"), na), bytes.Repeat([]byte("b"), nb)
+		inWorld(rt, hlsim.Options{Agreement: "a", Accounts: []hlsim.AccountSpec{acct("admin", "Admin", "adminpw", allAccess)}}, func(rt *rapid.T, w *hlsim.World) {
+			must(os.WriteFile(filepath.Join(w.FileRoot, "a.bin"), a, 0o644))
+			must(os.WriteFile(filepath.Join(w.FileRoot, "b.bin"), b, 0o644))
+			c := loginAs(rt, w, "10.2.9.1:1", "admin", "adminpw", "admin")
+			grant := func(typ int, fs ...hlref.Field) [4]byte {
+				r := c.Request(typ, fs...)
+				if !okReply(r) {
+					rt.Fatalf("harness: transfer not granted: %s", replySummary(r))
+				}
+				ref, _ := r.Get(hlref.FRefNum)
+				var r4 [4]byte
+				copy(r4[:], ref)
+				return r4
+			}
+			body := func(stream []byte, what string) []byte {
+				p, err := hlref.ParseFlatHeader(stream)
+				if err != nil {
+					rt.Fatalf("%s: the transfer stream does not start with a flattened-file header: %v (%d bytes received)", what, err, len(stream))
+				}
+				d := stream[p.HeaderLen:]
+				if p.DataSize <= len(d) {
+					d = d[:p.DataSize] // an (empty) resource fork header may follow the data fork
+				}
+				return d
+			}
+			for wave := 0; wave < nWaves; wave++ {
+				refA := grant(hlref.TranDownloadFile, sfld(hlref.FFileName, "a.bin"))
+				xa := w.OpenTransfer(fmt.Sprintf("10.2.9.1:%d", 10+wave*2))
+				preA := hlref.Preamble(refA, 0)
+				xa.Send(preA[:k])
+				var xb *hlsim.Conn
+				upName := fmt.Sprintf("up%d.bin", wave)
+				if bKind == "download" {
+					refB := grant(hlref.TranDownloadFile, sfld(hlref.FFileName, "b.bin"))
+					xb = w.OpenTransfer(fmt.Sprintf("10.2.9.1:%d", 11+wave*2))
+					xb.Send(hlref.Preamble(refB, 0))
+				} else {
+					s := hlsim.UploadStream([]byte(upName), nil, b, nil, 2)
+					refB := grant(hlref.TranUploadFile, sfld(hlref.FFileName, upName), fld(hlref.FTransferSize, hlref.BE32(len(s))))
+					xb = w.OpenTransfer(fmt.Sprintf("10.2.9.1:%d", 11+wave*2))
+					xb.Send(append(hlref.Preamble(refB, len(s)), s...))
+				}
+				settle(4 * time.Second)
+				xa.Send(preA[k:])
+				settle(4 * time.Second)
+				ctx := fmt.Sprintf("wave %d: connection A sent %d of its 16 preamble bytes, connection B (%s, %d bytes) its whole preamble, then A the rest", wave, k, bKind, nb)
+				if got := body(xa.Bytes(), ctx+"; A"); !bytes.Equal(got, a) {
+					rt.Fatalf("%s: A asked for a.bin (%d bytes) and received %d bytes of data that are not that file", ctx, na, len(got))
+				}
+				if bKind == "download" {
+					if got := body(xb.Bytes(), ctx+"; B"); !bytes.Equal(got, b) {
+						rt.Fatalf("%s: B asked for b.bin (%d bytes) and received %d bytes of data that are not that file", ctx, nb, len(got))
+					}
+				} else if got, err := os.ReadFile(filepath.Join(w.FileRoot, upName)); err != nil || !bytes.Equal(got, b) {
+					rt.Fatalf("%s: B's upload of %d bytes is on disk with %d bytes (%v)", ctx, nb, len(got), err)
+				}
+				xa.Close()
+				xb.Close()
+				settle(4 * time.Second)
+			}
+		})
+		ev.Case(evid.Hash("il", k, na, nb, bKind, nWaves), true, "interleaved-preamble", "B:"+bKind)
+	})
 }
